@@ -241,27 +241,39 @@ func (a *sparseArrayObject) setForeignIdx(name valueInt, val, receiver Value, th
 	return a._setForeignIdx(name, a.getOwnPropIdx(name), val, receiver, throw)
 }
 
+// sparseArrayPropIter walks a snapshot of the index keys taken when the iteration was created and looks every
+// element up again when it is reached: elements added meanwhile are not visited, deleted ones are skipped, and an
+// insertion before the current position cannot make an element come up twice.
 type sparseArrayPropIter struct {
-	a   *sparseArrayObject
-	idx int
+	a    *sparseArrayObject
+	keys []uint32
+	idx  int
+	rest iterNextFunc
 }
 
 func (i *sparseArrayPropIter) next() (propIterItem, iterNextFunc) {
-	for i.idx < len(i.a.items) {
-		name := asciiString(strconv.Itoa(int(i.a.items[i.idx].idx)))
-		prop := i.a.items[i.idx].value
+	for i.idx < len(i.keys) {
+		key := i.keys[i.idx]
 		i.idx++
-		if prop != nil {
-			return propIterItem{name: name, value: prop}, i.next
+		if k := i.a.findIdx(key); k < len(i.a.items) && i.a.items[k].idx == key {
+			if prop := i.a.items[k].value; prop != nil {
+				return propIterItem{name: asciiString(strconv.FormatUint(uint64(key), 10)), value: prop}, i.next
+			}
 		}
 	}
 
-	return i.a.baseObject.iterateStringKeys()()
+	return i.rest()
 }
 
 func (a *sparseArrayObject) iterateStringKeys() iterNextFunc {
+	keys := make([]uint32, len(a.items))
+	for i := range a.items {
+		keys[i] = a.items[i].idx
+	}
 	return (&sparseArrayPropIter{
-		a: a,
+		a:    a,
+		keys: keys,
+		rest: a.baseObject.iterateStringKeys(),
 	}).next
 }
 
